@@ -255,6 +255,23 @@ def _transform(case):
         if v is not None:
             want = Ad @ x if name in MOTION else Ad.T @ x
             c.eq("SE3*x/value", v[0], want, 1e-9, sc)
+    # a twist premultiplies through the adjoint of the motion it generates
+    wv = refs.unit(case["T"]["rot"]["axis"]) * min(case["T"]["rot"]["angle"], 3.0)
+    S6 = np.r_[T[:3, 3] / max(1.0, float(np.max(np.abs(T[:3, 3])))), wv]
+    E = refs.expm_se3(S6[:3], S6[3:])
+    # (documented in SpatialVector.__rmul__ but outside the statement, and Twist3.__mul__ currently raises before the
+    #  reflected operator is reached: a raise is accepted, a returned value must be right)
+    try:
+        R = L.Twist3(S6.copy()) * obj
+        ok = True
+    except Exception:  # noqa
+        ok = False
+    if ok:
+        v = _vals(c, "Twist3*x", R, name, 1)
+        if v is not None:
+            AdE = refs.adjoint(E)
+            want = AdE @ x if name in MOTION else AdE.T @ x
+            c.eq("Twist3*x/value", v[0], want, 1e-7, max(1.0, float(np.max(np.abs(E[:3, 3])))) * max(float(np.max(np.abs(x))), 1e-300))
     c.eq("operand", obj.A, x, 0)
     c.eq("operand/T", X.A, T, 0)
     # the reverse order is not defined
